@@ -403,4 +403,20 @@ def binarySearchBy {κ} (lt : κ → κ → Bool) (keys : List κ) (key : κ) : 
       if !lt k key && !lt key k then .ok base
       else if lt k key then .error (base + 1) else .error base
 
+/-- `BTreeSet<u32>::insert` on the ascending duplicate-free list that represents the set -/
+def rsSetInsert : List Nat → Nat → List Nat
+  | [], x => [x]
+  | y :: ys, x => if x < y then x :: y :: ys else if x = y then y :: ys else y :: rsSetInsert ys x
+
+/-- `iter.map(f).collect()` with a fallible `f`: left to right, the first error wins -/
+def rsMapM {α β : Type} (f : α → Res β) : List α → Res (List β)
+  | [] => .ok []
+  | x :: xs =>
+    match f x with
+    | .error e => .error e
+    | .ok y =>
+      match rsMapM f xs with
+      | .error e => .error e
+      | .ok ys => .ok (y :: ys)
+
 end SmVerif.Rs
